@@ -63,13 +63,13 @@ CHECKS["C20"] = dict(
     design="DESIGN.md S.2 and 3 C20")
 
 CHECKS["C14"] = dict(
-    technique="Coq proof: inductive invariant over all reachable states of a transition-system model of jit.py's file-system protocol (any number of processes, any interleaving): mutual exclusion, marker implies complete, no partial load, at most one compile, reuse; trace conformance of the real compile_forms under a deterministic scheduler that stops at every file-system call",
+    technique="Coq proof: inductive invariant over all reachable states of a transition-system model of jit.py's file-system protocol (any number of processes, any interleaving): mutual exclusion, marker implies complete, no partial load (all traces, failures and kills included: the marker is published atomically, a fact regenerated from the source by tr_jit), at most one compile, reuse; trace conformance of the real compile_forms under a deterministic scheduler that stops at every file-system call (also at pathlib / os primitives on protocol files the protocol does not use today); property judged on real outcomes",
     text="For every number of concurrent requests and every interleaving of their file-system steps: at most one builder, the ready marker is only present with a complete module, no request loads a partial module, the compiler finishes at most once without faults, a later request reuses the module in three steps. The model is validated against the real functions on scheduled runs (120 quick / 3000 thorough), the OS loader replaced by a content check. Correctness of the kernels inside the module is C01's concern.",
     note="Coq kernel+VM; hand model tied by trace conformance; POSIX exclusivity of open('x'), atomic rename, dlopen of a complete file; wall-clock timeout modelled as a poll counter",
     design="DESIGN.md S.2 and 3 C14, Appendix B")
 CHECKS["C15"] = dict(
-    technique="Coq proof over the same transition system with fault and kill transitions at every point: no partial load after any kill/failure (outside the marker window), failed build releases the lock, root logger handlers restored in every request that returns or raises (restore_on_fault read off the source by tr_jit); fault/kill-injected trace conformance; scripted schedule for the known marker-window finding",
-    text="For every crash point and every later history: later requests load a complete module or raise, never a partial one; after a failed build the lock is renamed and the next request builds; process-global logger state is restored. The window between creating the marker and returning is excluded from the safety theorem and refuted there (known finding c15-marker-window, reproduced on the real code).",
+    technique="Coq proof over the same transition system with fault and kill transitions at every point: no partial load and marker-implies-complete after any kill/failure on every trace, failed build releases the lock, root logger handlers restored in every request that returns or raises (restore_on_fault, atomic_marker read off the source by tr_jit); fault/kill-injected trace conformance with faults at code generation, compile, link, log write and marker publication; scripted schedule for the former marker-window defect",
+    text="For every crash point and every later history: later requests load a complete module or raise, never a partial one; after a failed build the lock is renamed and the next request builds; process-global logger state is restored. With the marker created empty and then filled (the code before fix 4061520) the safety statement is false (Jit.marker_window_refuted); with atomic publication it holds for every trace. A request in which nothing failed may not raise a build error.",
     note="Coq kernel+VM; hand model tied by fault-injected trace conformance; kill = process disappears between two file-system calls; POSIX assumptions as C14",
     design="DESIGN.md S.2 and 3 C15, Appendix B")
 
